@@ -74,7 +74,7 @@ def openStepA (rels : Dict Str Str) (a : DC) (x : Xml) (inCell : Bool) : M (DC Ã
   | .paragraph => (openParagraphA a x inCell) >>= fun a' => pure (a', true)
   | .text d => (a.ensureParA) >>= fun a' => pure (a', d)
   | .nothing d => pure (a, d)
-  | .queue => pure (a.queueRunA, true)
+  | .queue => (a.flushImplicit (some 4)) >>= fun a0 => pure (a0.queueRunA, true)
 
 def closeStepACore (dup : Bool) (a : DC) (x : Xml) : M DC :=
   match tagMember x.ptag with
